@@ -10,6 +10,8 @@ NONFOREIGN_PREFIXES = (
     "alloc::boxed::Box::<T, A>::from_raw", "alloc::boxed::Box::<T, A>::into_raw",
     "core::option::Option::<T>::is_", "core::result::Result::<T, E>::is_", "core::fmt::Arguments", "core::fmt::rt::",
     "alloc::vec::Vec::<T, A>::len", "alloc::vec::Vec::<T>::with_capacity", "alloc::vec::Vec::<T, A>::into_boxed_slice", "alloc::vec::Vec::<T, A>::capacity",
+    "alloc::vec::Vec::<T, A>::as_ptr", "alloc::vec::Vec::<T, A>::as_mut_ptr", "alloc::vec::Vec::<T, A>::set_len", "alloc::vec::Vec::<T, A>::is_empty",
+    "alloc::slice::<impl [T]>::into_vec", "core::num::<impl usize>::",
     "core::str::from_utf8_unchecked", "core::cmp::min", "core::cmp::max", "core::ptr::NonNull",
     "core::result::Result::<T, E>::unwrap_unchecked", "core::option::Option::<T>::unwrap_unchecked",
 )
